@@ -169,7 +169,7 @@ def _run_loop_scenario(chk, pid, S, fi, host, calls, scen):
         a = bound_args(adjust[0], chk.prog)
         ok = a.get("amount") is not None and a["amount"][0] == "fld" and a["amount"][2] == "initial_capital"
         chk.ob("C03.R5", ok, BACKTEST, host, "initial-capital-amount", "the strategy is funded with the backtest's initial capital", where=adjust[0].where)
-    if pid in ("C04", "C08", "C09", "C16", "C01", "C02", "C07", "C03"):
+    if pid in ("C04", "C08", "C09", "C16", "C01", "C02", "C07", "C03", "C12", "C13"):
         chk.need(loop_updates, "Backtest.run no longer updates the strategy inside the date loop")
         loop = loop_updates[0].loops[-1]
         it = loop.iter
@@ -190,7 +190,7 @@ def _run_loop_scenario(chk, pid, S, fi, host, calls, scen):
                 chk.ob("C08.R1", not extra and runs[0].seq < second.seq, BACKTEST, host, "post-run-update-unconditional",
                        "after the algos ran the tree is updated unconditionally, so results do not depend on whether an algo happened to refresh", where=second.where,
                        expected="update(dt) right after run()", found=sym.fmt_guard(extra))
-        if pid in ("C16",):
+        if pid in ("C16", "C12", "C13"):
             r = runs[0]
             bk = fld(fld(SELF, "strategy"), "bankrupt")
             ok = any((not p) and a[0] == "fld" and a[2] == "bankrupt" for a, p in r.guard)
@@ -219,3 +219,29 @@ def additional_data_only_prepended(chk):
             chk.ob("C04.R6", ok, "bt/backtest.py", "Backtest._process_data", "additional-data-only-prepended", "additional data is only given the synthetic first row: rows are never shifted", where=e.where,
                    found=short(v, 140))
 
+
+def benchmark_random_rules(chk):
+    """The random benchmarks run on the same dates as the original: the data handed to them is the original backtest's framed
+    data WITHOUT its synthetic first row (Backtest adds its own), i.e. `backtest.data.dropna()`."""
+    S = chk.summary(BACKTEST, None, "benchmark_random", host=None)
+    chk.site()
+    class _E(object):
+        pass
+    news = []
+    vals = [rv for _, rv in S.exits] + [getattr(e, "value", None) for e in S.events] + [a for e in S.events for a in (e.args or ())]
+    for v in vals:
+        if not isinstance(v, tuple):
+            continue
+        for n in sym.walk(v):
+            if (n[0] == "call" and n[1] in ("bt.Backtest", "Backtest")) or (n[0] == "new" and n[1] == "Backtest"):
+                x = _E()
+                x.args, x.kwargs, x.where = n[2], dict(n[3]), S.fn.where
+                if not any(y.args == x.args for y in news):
+                    news.append(x)
+    chk.need(news, "benchmark_random no longer builds the random backtests")
+    for e in news:
+        d = e.args[1] if len(e.args or ()) > 1 else (e.kwargs or {}).get("data")
+        ok = (d is not None and d[0] == "mcall" and d[2] == "dropna" and d[1][0] in ("fld", "attr") and d[1][2] == "data" and d[1][1] == ("param", "backtest"))
+        chk.ob("C12.R1", ok, BACKTEST, "benchmark_random", "random-backtests-on-unframed-data",
+               "the random backtests get the original's data without its synthetic pre-start row (each Backtest frames its data itself): with the row kept, every scheduler's 'first date' "
+               "and every counter would be shifted by one", where=e.where, expected="Backtest(random_strategy, backtest.data.dropna())", found=short(d, 120) if d is not None else "no data argument")
